@@ -314,13 +314,19 @@ QuiesceFails(r, cfgs, metas) ==
 \* a reported deadlock is genuine: every blocked thread waits for a lock that another blocked
 \* thread holds in a conflicting mode
 Conflicts(mode, held) == ~(mode = "r" /\ held = "r")
+\* ... or (parking_lot's RwLock prefers writers) it wants to READ a lock that is read-held -- possibly by
+\* itself: a recursive read -- while another blocked thread waits to WRITE it: new readers queue behind a
+\* waiting writer, the writer waits for the readers to leave
+HeldBy(r, j, lock, m) == \E h \in DOMAIN r.blocked[j].holds : r.blocked[j].holds[h] = lock \o ":" \o m
 GenuineDeadlock(r) ==
   /\ r.blocked # <<>>
   /\ \A i \in DOMAIN r.blocked :
-       \E j \in DOMAIN r.blocked : j # i /\
-          \E h \in DOMAIN r.blocked[j].holds :
+       \/ \E j \in DOMAIN r.blocked : j # i /\
              \E m \in {"r", "w", "x"} :
-                r.blocked[j].holds[h] = r.blocked[i].wants \o ":" \o m /\ Conflicts(r.blocked[i].mode, m)
+                HeldBy(r, j, r.blocked[i].wants, m) /\ Conflicts(r.blocked[i].mode, m)
+       \/ /\ r.blocked[i].mode = "r"
+          /\ \E j \in DOMAIN r.blocked : j # i /\ r.blocked[j].wants = r.blocked[i].wants /\ r.blocked[j].mode = "w"
+          /\ \E j \in DOMAIN r.blocked : HeldBy(r, j, r.blocked[i].wants, "r")
 
 RegMeta(m) == [fixture |-> m.fixture, tags |-> m.tags, events |-> m.events, deps |-> m.deps]
 
